@@ -168,6 +168,7 @@ type agg struct {
 	tainted          int
 	detChecked       int
 	detMismatch      int
+	detWarm          int
 	workerWall       float64
 	perPlan          map[string]map[string]interface{}
 }
@@ -500,7 +501,7 @@ func drive(id string, p Prop, tier string) int {
 		"map_ranges_through_seam":        a.mapRanges,
 		"map_ranges_permuted":            a.mapPermuted,
 		"map_ranges_uncontrolled":        a.mapUnctl,
-		"determinism_spot_check":         map[string]int{"cases_run_twice": a.detChecked, "mismatches": a.detMismatch},
+		"determinism_spot_check":         map[string]int{"cases_run_twice": a.detChecked, "mismatches": a.detMismatch, "first_use_effects_of_the_library": a.detWarm},
 		"plans":                          a.perPlan,
 		"components":                     p.Components(),
 		"instrumenter_warnings":          keys(a.warnings),
@@ -532,6 +533,9 @@ func drive(id string, p Prop, tier string) int {
 		return trouble("a violation was observed by a worker but reproduces neither from its case nor from the worker's run prefix:\n%s", strings.Join(unconfirmed, "\n"))
 	}
 	nondet := libNondet(a.warnings)
+	if a.detWarm > 0 {
+		fmt.Printf("NOTE: %d of %d re-executed cases ran differently the second time and identically the third: the library keeps state across parses in the process (a cache filled on first use); replay files of violations carry the worker's case prefix where that matters\n", a.detWarm, a.detChecked)
+	}
 	if a.detMismatch > 0 && nondet {
 		fmt.Printf("NOTE: %d of %d re-executed cases gave a different event trace; the library under test uses run-to-run nondeterministic facilities (%v), so this is not held against the machinery\n", a.detMismatch, a.detChecked, keys(a.warnings))
 		a.detMismatch = 0
@@ -610,6 +614,7 @@ func (a *agg) merge(o *WorkerOut) {
 	}
 	a.detChecked += o.DetChecked
 	a.detMismatch += o.DetMismatch
+	a.detWarm += o.DetWarm
 	a.workerWall += o.WallS
 }
 
